@@ -1,5 +1,6 @@
 (* C13 — capacity management is transparent, meets its bounds, and growth is bounded. *)
 Require Import LruV.T.TableA LruV.A.SpecA LruV.T.GrowthA.
+Require Import LruV.T.GrowthMon.
 
 Definition cap_op (p : op) : bool := match p with Reserve _ | TryReserve _ | ShrinkTo _ | ShrinkToFit => true | _ => false end.
 
@@ -120,6 +121,20 @@ Proof.
   intros E VS HE HV s pk rq HR. destruct (growth_bounded E VS HE HV s pk rq HR) as [H1 H2]. repeat split; auto. unfold capacity. lia.
 Qed.
 
+(* the growth clause of the monitor evaluated on the implementation (c13_mon, arms Insert / TryInsert: when an insertion
+   changes the number of buckets, the new table is the smallest one holding twice the entries the table held when it refused
+   the newcomer) holds for every step of the model *)
+Theorem C13_monitor_growth_insert : forall E VS, 0 < E -> VS <= E -> forall s k v o s' old evs, Inv E s -> kheap k + vheap v + E < W ->
+  stepA E VS fixed s (Insert k v) o = Some (s', OInsOk old, evs) ->
+  len s' - 1 <= capacity (t_erase (tb s) (o_tomb o)) ->
+  c13_mon s (Insert k v) (OInsOk old) s' = true.
+Proof. exact c13_mon_growth_insert. Qed.
+Theorem C13_monitor_growth_try_insert : forall E VS, 0 < E -> VS <= E -> forall s k v o s' evs, Inv E s -> kheap k + vheap v + E < W ->
+  stepA E VS fixed s (TryInsert k v) o = Some (s', OTryOk, evs) ->
+  len s <= capacity (tb s) ->
+  c13_mon s (TryInsert k v) OTryOk s' = true.
+Proof. exact c13_mon_growth_try_insert. Qed.
+
 Example C13_example_reserve :
   let s := {| ents := []; cur := 0; maxs := 1000; tb := {| nb := 4; tombs := 0 |} |} in
   exists s', stepA 72 24 fixed s (Reserve 28) {| o_tomb := 0; o_reuse := false; o_alloc := true |} = Some (s', OUnit, rebuilt_ev s) /\ capacity (tb s') = 28.
@@ -133,4 +148,6 @@ Print Assumptions C13_shrink_to_fit.
 Print Assumptions C13_with_capacity_step.
 Print Assumptions C13_auto_growth.
 Print Assumptions C13_growth_bounded.
+Print Assumptions C13_monitor_growth_insert.
+Print Assumptions C13_monitor_growth_try_insert.
 Print Assumptions C13_pinned_shrink_refuted.
